@@ -30,7 +30,7 @@ import sys
 from fractions import Fraction
 from pathlib import Path
 
-from common import REPO, VERIF, Check, f2h, h2f, use_repo
+from common import REPO, VERIF, Check, InfraError, f2h, h2f, use_repo
 
 sys.path.insert(0, str(VERIF / "harness" / "translators"))
 import tr_datatype  # noqa: E402
@@ -159,21 +159,45 @@ def impl_value(model):
     return float(v.reshape(-1)[0])
 
 
+def impl_path(model, n):
+    """which representation the model object actually holds for its tips: 'states' ([N] integer tensors) or
+    'partials' ([S,N] floating tensors), read from the object, not from the request"""
+    flag = bool(getattr(model, "use_tip_states", False))
+    p0 = model.partials[0]
+    kind = "states" if (p0.dim() == 1 and not p0.is_floating_point()) else ("partials" if p0.dim() == 2 else f"dim{p0.dim()}")
+    return flag, kind
+
+
 def json_case_lean(ck: Check, drv, torch, case, tag, out=None):
-    """discrete + float correspondence of one JSON case. Returns (impl value or None)."""
+    """discrete + float correspondence of one JSON case. Returns (impl value or None, model or None).
+    Anything the implementation returns in a shape / type / representation other than the one the JSON
+    specification asked for is recorded as a correspondence MISMATCH (then searched), never raised."""
     try:
         model = G.build_model(case)
         impl = impl_value(model)
     except Exception as e:  # noqa: BLE001
         ck.mismatch("implementation raised", {"case": case, "error": repr(e)[:300]})
         return None, None
+    try:
+        _json_case_lean(ck, drv, torch, case, tag, out, model, impl)
+    except InfraError:
+        raise
+    except Exception as e:  # noqa: BLE001
+        import traceback
+
+        ck.mismatch("implementation returned something the harness could not interpret",
+                    {"case": case, "error": repr(e)[:300], "where": traceback.format_exc()[-600:]})
+    return impl, model
+
+
+def _json_case_lean(ck: Check, drv, torch, case, tag, out, model, impl):
     taxa = case["taxa"]
     n = len(taxa)
     t = G.parse_newick(case["newick"])
     idx = G.lean_index(drv, taxa, t)
     if idx is None:
         ck.mismatch("model rejected tree", {"case": case})
-        return impl, model
+        return
     G.shape_indices(idx["shape"], t)
     tm = model.tree_model
     # ---- (b) discrete
@@ -193,6 +217,14 @@ def json_case_lean(ck: Check, drv, torch, case, tag, out=None):
     if pat is None:
         ck.mismatch("model rejected alignment", {"case": case})
     else:
+        # which path did the object take?  (option plumbing: use_tip_states / use_ambiguities given, absent, true, false)
+        want_states = bool(case.get("use_tip_states"))
+        flag, kind = impl_path(model, n)
+        ck.bucket(f"options/ts={case.get('use_tip_states')}/amb={case.get('use_ambiguities')}/took={kind}")
+        if flag != want_states or kind != ("states" if want_states else "partials"):
+            ck.mismatch("model took another tip representation than the options name",
+                        {"case": case, "requested_use_tip_states": case.get("use_tip_states"), "model.use_tip_states": flag, "tips_held": kind})
+            return
         # the tip data the model object holds (first n entries of .partials), per taxon index and pattern
         if case.get("use_tip_states"):
             impl_tips = [[int(v) for v in model.partials[i].tolist()] for i in range(n)]
@@ -241,7 +273,7 @@ def json_case_lean(ck: Check, drv, torch, case, tag, out=None):
     lean_bl = [h2f(w) for w in rep.split()[1:]] if rep.startswith("ok") else None
     if lean_bl != impl_bl:
         ck.mismatch("branch lengths differ (exact)", {"case": case, "impl": impl_bl, "model": lean_bl if lean_bl is not None else rep})
-        return impl, model
+        return
     # ---- (c) float: Lean assembles times, torch supplies p_t of those times, Lean prunes
     rates = [float(v) for v in model.site_model.rates().reshape(-1)]
     probs = [float(v) for v in model.site_model.probabilities().reshape(-1)]
@@ -253,16 +285,16 @@ def json_case_lean(ck: Check, drv, torch, case, tag, out=None):
         rep = drv.ask("asmc f | " + G.fl(lean_bl) + " | " + G.fl(cr) + " | " + G.fl(rates))
     if not rep.startswith("ok"):
         ck.mismatch("model rejected assembly", {"case": case, "model": rep})
-        return impl, model
+        return
     T = [[h2f(w) for w in row.split()] for row in rep[3:].split(" ; ")]
     if not tips_ok:
-        return impl, model
+        return
     try:
         mats = model.subst_model.p_t(torch.tensor(T, dtype=torch.float64))  # [B,K,S,S]
         pi = [float(v) for v in model.subst_model.frequencies.reshape(-1)]
     except Exception as e:  # noqa: BLE001
         ck.mismatch("p_t raised", {"case": case, "error": repr(e)[:200]})
-        return impl, model
+        return
     trip = " ".join("%d,%d,%d" % tr for tr in idx["post"])
     flat_m = G.fl(mats.reshape(-1).tolist())
     N = len(pat["weights"])
@@ -296,7 +328,7 @@ def json_case_lean(ck: Check, drv, torch, case, tag, out=None):
                 ck.mismatch("log-likelihood differs from the all-Lean JC69 run", {"case": case, "impl": impl, "model": ll3})
         else:
             ck.mismatch("model rejected jc69 request", {"case": case})
-    return impl, model
+    return
 
 
 def config_key(case):
@@ -308,7 +340,7 @@ def check_oracle(ck: Check, case, impl, model, failures, max_sites=None):
     try:
         want, _ = G.oracle_loglik(case, model)
     except Exception as e:  # noqa: BLE001
-        ck.notes.append("oracle could not be evaluated: " + repr(e)[:200])
+        ck.mismatch("oracle could not be evaluated on what the implementation exposes", {"case": case, "error": repr(e)[:300]})
         return
     if impl is None or not close(impl, want, TOL_ORACLE):
         failures.append((case, impl, want))
@@ -351,17 +383,13 @@ def run(ck: Check):
         # ---- corpus first
         cdir = VERIF / "corpus" / "C01"
         for f in sorted(cdir.glob("*.json")) if cdir.exists() else []:
-            case = json.loads(f.read_text())["case"]
-            impl, model = (json_case_lean(ck, drv, torch, case, "corpus") if drv else (None, None))
-            if model is None:
-                try:
-                    model = G.build_model(case)
-                    impl = impl_value(model)
-                except Exception:  # noqa: BLE001
-                    model = None
-            ck.case(key=("corpus", f.name), bucket="corpus")
-            if model is not None:
-                check_oracle(ck, case, impl, model, failures)
+            try:
+                case = json.loads(f.read_text())["case"]
+                run_case(ck, drv, torch, case, failures, "corpus")
+            except InfraError:
+                raise
+            except Exception as e:  # noqa: BLE001
+                ck.mismatch("corpus case could not be evaluated", {"file": f.name, "error": repr(e)[:300]})
         if drv:
             table_correspondence(ck, drv)
             exact_direct(ck, drv, torch, 3000 if thorough else 500)
@@ -402,13 +430,37 @@ def run(ck: Check):
             run_case(ck, drv, torch, case, failures, "random/10-40", oracle=False)
         # ---- ambiguity stress: columns in which NO taxon is unambiguous, all-missing columns, columns repeated many
         #      times, RNA U/u — with ambiguities on / off / default, tip partials and tip states
+        #      every combination of the two boolean options GIVEN true / GIVEN false / ABSENT (in particular exactly
+        #      one of them set): the object must take the path the option names and agree with the oracle
         for ua in (True, False, None):
-            for ts in (False, True):
+            for ts in (False, True, "absent"):
                 for _ in range(12 if thorough else 4):
                     n = rng.choice([3, 4, 5, 6])
                     case = G.gen_case(rng, n, subst=rng.choice(["JC69", "HKY", "GTR", "GeneralNonSymmetric"]),
                                       tip_states=ts, use_amb=ua, use_amb_fixed=True, special=True, nsites=rng.randint(2, 5))
                     run_case(ck, drv, torch, case, failures, f"ambiguity-stress/amb={ua}/tipstates={ts}")
+        # ---- accuracy on large trees with MIXED columns: a few well-behaved columns plus one whose site likelihood lies in
+        #      the float64 denormal range without flushing to zero; reference = pruning in mpmath (unbounded range)
+        plan = [("balanced", 256, False), ("balanced", 256, True)]
+        if thorough:
+            plan += [("balanced", 256, False), ("caterpillar", 200, True), ("random", 256, False), ("balanced", 300, True),
+                     ("caterpillar", 220, False), ("random", 280, True)]
+        for shape, n, ts in plan:
+            try:
+                case, hard = G.denormal_case(rng, n, shape, ts, target=rng.uniform(-322.0, -319.5),
+                                             subst=rng.choice(["JC69", "HKY"]) if thorough else "JC69")
+                model = G.build_model(case)
+                impl = impl_value(model)
+                want, logs = G.mp_loglik(case, model)
+            except InfraError:
+                raise
+            except Exception as e:  # noqa: BLE001
+                ck.mismatch("large mixed-column case could not be evaluated", {"shape": shape, "n": n, "error": repr(e)[:300]})
+                continue
+            ck.case(key=("denormal", shape, n, ts, case["newick"][:80]), bucket=f"denormal-mixed/{shape}/{n}/" + ("tip-states" if ts else "tip-partials"),
+                    sample={"shape": shape, "taxa": n, "log10_site_likelihoods": [round(x, 2) for x in logs], "loglik": impl, "reference": want})
+            if not close(impl, want, TOL_ORACLE):
+                failures.append((case, impl, want))
         # ---- LIVE-object histories: update parameters of ONE model object through the public interface
         for h in range(250 if thorough else 45):
             n = rng.choice([3, 4, 5, 6])
@@ -451,7 +503,7 @@ def run(ck: Check):
         case, impl, want = failures[0]
         ck.violation(
             "TreeLikelihoodModel:" + "/".join(str(x) for x in config_key(case)[:3]),
-            f"log-likelihood {impl} differs from explicit marginalisation over all labelings {want} "
+            f"log-likelihood {impl} differs from " + ("the extended-range reference " if len(case["taxa"]) > 9 else "explicit marginalisation over all labelings ") + f"{want} "
             f"({len(failures)} failing inputs; smallest: {len(case['taxa'])} taxa, {config_key(case)})",
             {"case": case, "impl": impl, "oracle": want, "broken_obligations": broken,
              "mismatches": ck.mismatches[:3], "replay_cmd": "./check C01 --replay <this file>"},
@@ -468,6 +520,17 @@ def run(ck: Check):
 
 
 def run_case(ck, drv, torch, case, failures, bucket, lean=True, oracle=True):
+    try:
+        _run_case(ck, drv, torch, case, failures, bucket, lean, oracle)
+    except InfraError:
+        raise
+    except Exception as e:  # noqa: BLE001
+        import traceback
+
+        ck.mismatch("case could not be evaluated", {"case": case, "error": repr(e)[:300], "where": traceback.format_exc()[-600:]})
+
+
+def _run_case(ck, drv, torch, case, failures, bucket, lean=True, oracle=True):
     impl = model = None
     if drv and lean:
         impl, model = json_case_lean(ck, drv, torch, case, bucket)
@@ -514,7 +577,12 @@ def replay(path: str) -> int:
     except Exception as e:  # noqa: BLE001
         print("implementation raised:", repr(e))
         return 1
-    want, per_site = G.oracle_loglik(case, model)
+    if len(case["taxa"]) > 9:
+        want, logs = G.mp_loglik(case, model)
+        how = "extended-range (mpmath) pruning reference; log10 site likelihoods " + str([round(x, 1) for x in logs])
+    else:
+        want, per_site = G.oracle_loglik(case, model)
+        how = "explicit marginalisation"
     bad = not close(impl, want, TOL_ORACLE)
-    print(f"TreeLikelihoodModel() = {impl!r}; explicit marginalisation = {want!r}; {'VIOLATES' if bad else 'ok'}")
+    print(f"TreeLikelihoodModel() = {impl!r}; {how} = {want!r}; {'VIOLATES' if bad else 'ok'}")
     return 1 if bad else 0
